@@ -174,17 +174,18 @@ def boundary_points():
     return _bpts[0]
 
 
-def solve_zero_block(rng, high, field_bits, shift, a, b, fmax=None):
+def solve_zero_block(rng, high, field_bits, shift, a, b, fmax=None, unknown_bits=None):
     """A value f < 2^field_bits (f < fmax if given) such that N = high + f * 2^shift + c has base-58 digits
     number a .. b-1 (from the right) all ZERO for EVERY 0 <= c < 2^(shift+1) — c stands for the part of the number the
     caller cannot choose (the 4 checksum bytes and a flag byte below the field).  Needs 58^a > 2^(shift+2).
     58^b = 2^b * 29^b and 2^shift is invertible modulo 29^b only, hence the two-step solution."""
     T, M = 58 ** a, 58 ** b
-    assert T > 2 ** (shift + 2) and shift >= b
+    ub = shift + 1 if unknown_bits is None else unknown_bits      # c < 2^ub (default: everything below the field)
+    assert T > 2 ** (ub + 1) and shift >= b
     Mp = M >> b                                    # 29^b
     for _ in range(200):
         # want (high + f*2^shift) mod M = s with s < T - 2^(shift+1) and s = high (mod 2^b)  [f*2^shift = 0 mod 2^b]
-        s = (high % (1 << b)) + (rng.randrange(0, (T - (1 << (shift + 1))) >> b) << b)
+        s = (high % (1 << b)) + (rng.randrange(0, (T - (1 << ub)) >> b) << b)
         x = (s - high) % M                         # = f * 2^shift (mod M), divisible by 2^b
         xp = (x >> b) % Mp
         f0 = xp * pow(pow(2, shift - b, Mp), -1, Mp) % Mp
@@ -194,7 +195,7 @@ def solve_zero_block(rng, high, field_bits, shift, a, b, fmax=None):
         f = f0 + Mp * rng.randrange(0, max(1, (span - f0) // Mp))
         if 0 < f < span:
             lo = high + (f << shift)
-            if all(((lo + c) // T) % (M // T) == 0 for c in (0, (1 << (shift + 1)) - 1)):
+            if all(((lo + c) // T) % (M // T) == 0 for c in (0, (1 << ub) - 1)):
                 return f
     return None
 
